@@ -12,6 +12,20 @@
 // library on it in a second child, and compares with the byte-exact
 // configurations of a fault-free reference run of the same sequence.
 //
+// usage: ptracefi -child <test binary> -tier quick|thorough -seed <uint64> -budget <seconds> -workers <n>
+//
+//	-scratch <dir> -known <known_findings.txt> -out <result.json> [-replay <replay.json>] [-seqs <n>]
+//
+// A case is (sequence seed, stop index, action, parameter); it is written as a
+// five-draw tape (seq_seed_hi, seq_seed_lo, stop, action, param) so that the
+// orchestrator's replay files work unchanged. Actions: 0 kill at syscall entry,
+// 1 kill at syscall exit, 2 torn write + kill (param: 0,1,len/2,len-1),
+// 3 errno (param: ENOSPC EACCES ENOENT EIO EDQUOT EROFS), 4 short write, child
+// continues (param as for 2). The quick tier enumerates every case of a fixed
+// set of six sequences plus one sequence derived from -seed; the thorough tier
+// adds seeded sequences until the budget ends. Exit status 0 = result file
+// written (violations, known findings and harness errors are in it), 2 = trouble.
+//
 // Linux x86-64 only. Standard library only.
 package main
 
@@ -1998,6 +2012,7 @@ func realMain() int {
 			"stores through mmap or io_uring would not be intercepted; the tracer reports a harness error if the child maps an asset file shared+writable or uses io_uring inside a store",
 			"fcntl and epoll_ctl on asset files (issued by package os when opening) are not stop points: they do not change the file system",
 			"for SetDecoys, SetPubkey, SetGeneration and SetPhantomSubnets no in-memory rollback is demanded; after such a failed store later stores are compared with the child's own in-memory configuration",
+			"a store that returns nil although an injected failure hit a write-side syscall (open for writing, write, fsync, close of a written descriptor, rename, ...) which it did not retry is reported as error-swallowed even when the file is intact: after a real failure of that kind the data need not be on disk",
 			"a store that returns an error although the replacement already took effect (failure injected after the commit point of the reference run) may leave the new configuration on disk",
 		},
 	}
